@@ -27,7 +27,10 @@ def live_step(ro, msg_xml, history, as_bytes=False, route=None):
     if drive.DEBUG_LOGGING:
         ev.case['logging'] = 'debug'
     ev.msg = model.Msg(msg_xml)
-    ev.state = xmlcmp.state_of(ET.fromstring(before))
+    try:
+        ev.state = xmlcmp.state_of(ET.fromstring(before))
+    except ET.ParseError as e:
+        raise env.LibraryFault(f'serialisation-not-well-formed|str(ro) of a live running order does not parse: {e}')
     ev.ex = model.expect(ev.state, ev.msg)
     # half of the steps of a history (chosen by the message text, so replays agree) go through
     # msg.merge(ro) instead of ro += msg: anything the running order caches must not care
@@ -129,7 +132,10 @@ def make_machine(mod, col, kinds=None, faults='some', rich=True, degenerate=True
 
         @rule(data=st.data())
         def send(self, data):
-            state = xmlcmp.state_of(ET.fromstring(str(self.ro)))
+            try:
+                state = xmlcmp.state_of(ET.fromstring(str(self.ro)))
+            except ET.ParseError as e:
+                raise env.LibraryFault(f'serialisation-not-well-formed|str(ro) of a live running order does not parse: {e}')
             for sid, its in state:
                 if sid not in self.seen_s:
                     self.seen_s.append(sid)
